@@ -450,3 +450,5 @@ func init() {
 		},
 	})
 }
+
+func (c *c12Case) Evals() int { return len(c.Cuts) + len(c.Alts) + len(c.FHs) }
